@@ -270,10 +270,17 @@ def gen_case(ctx, spec, rng, sizes=(4, 11)):
     data = make_data(nrs, n, spec.kind, flavour, n_labeled=n_lab, classes=spec.classes or (0, 1, 2))
     modes = ["none", "idx"] + (["rows"] if spec.rows else [])
     mode = rng.choice(modes)
+    # strategies with their own batch loop: bias towards proper index subsets with batch sizes >= 2 (the
+    # situation in which a loop has to skip clusters / leaves without candidates and mask earlier picks)
+    hard = spec.skeleton == "B" and rng.random() < 0.5
+    if hard:
+        mode = "idx"
     cand, cs, ncols = candidate_arg(data, mode, rng, spec)
     if cs is None or len(cs) == 0:
         return None
     b = rng.choice([1, 2, 3, max(1, len(cs) - 1), len(cs), len(cs) + 2])
+    if hard:
+        b = rng.choice([2, 3, len(cs), max(2, len(cs) - 1)])
     seed = rng.randrange(10**6)
     return dict(spec=spec.name, n=n, flavour=flavour, mode=mode, b=int(b), seed=seed, X=data["X"], y=data["y"],
                 candidates=cand), data, cand, cs, ncols
